@@ -11,10 +11,11 @@ Definition C07_partial_statement : Prop :=
   (forall s sf k fuel t bs, not_excess (dec3 s {| safe := sf; lim := Some k |} fuel t bs) = true ->
      dec3 s {| safe := sf; lim := None |} fuel t bs = dec3 s {| safe := sf; lim := Some k |} fuel t bs) /\
   (* DecodeBebop: for EVERY reader state - any data, any schedule, any limit stack, latch set or not - the same *)
-  (forall s lim fuel t r, no_panic (sdec s lim fuel t r)).
+  (forall s lim fuel t r, no_panic (sdec s lim fuel t r)) /\
+  (forall s k fuel t r, not_excess (sdec s (Some k) fuel t r) = true -> sdec s None fuel t r = sdec s (Some k) fuel t r).
 
 Theorem C07_partial : C07_partial_statement.
-Proof. split; [exact checked_decoder_never_panics|split; [exact guard_only_exits_early|exact stream_decoder_never_panics]]. Qed.
+Proof. split; [exact checked_decoder_never_panics|split; [exact guard_only_exits_early|split; [exact stream_decoder_never_panics|exact stream_guard_only_exits_early]]]. Qed.
 
 (* the Excess outcomes are real: 8 bytes make the generated code ask for 2^31 - 1 elements before any check (known finding) *)
 Example C07_excess_witness :
